@@ -10,6 +10,7 @@ from ..viol import Violation, require
 ID = 'C04'
 LEVEL = 'exploration'
 RULE = (
+    'S: every position of the dynamic-reordering trigger inside let in its three forms (as in C09). '
     'H: Hypothesis histories on used managers (several lets in one manager without a collection in between, collections, re-used node numbers, swaps, dynamic reordering) mixing the three forms of let. '
     'E (n<=3, all orders, fresh and used managers): cofactor - every '
     'function x every partial assignment (3^n); rename - every function x '
@@ -29,7 +30,7 @@ ASSUMPTIONS = [
 ]
 
 
-HIST_ALPHA = {'build': 8, 'repeat': 6, 'apply': 2, 'let_const': 8, 'let_rename': 8, 'let_compose': 10, 'drop': 6, 'gc': 5, 'swap': 3, 'sift': 1, 'reorder_to': 1, 'declare': 1, 'var': 1, 'undeclare': 3, 'add_var': 1, 'quantify': 1, 'gc_roots': 1}
+HIST_ALPHA = {'build': 8, 'repeat': 6, 'churn': 1, 'apply': 2, 'let_const': 8, 'let_rename': 8, 'let_compose': 10, 'drop': 6, 'gc': 5, 'swap': 3, 'sift': 1, 'reorder_to': 1, 'declare': 1, 'var': 1, 'undeclare': 3, 'add_var': 1, 'quantify': 1, 'gc_roots': 1}
 
 
 def _hist_nontrivial(w):
@@ -46,6 +47,11 @@ def _hist_plan(tier, seed):
 
 def plan(tier, seed):
     specs = []
+    # trigger-position sweeps of dynamic reordering (machinery of C09)
+    for s_ in range(6 if tier == 'thorough' else 2):
+        specs.append(dict(kind='schedule', seed=seed * 100 + 60 + s_,
+                          only=['let_const', 'let_compose', 'let_rename'],
+                          examples=200 if tier == 'thorough' else 30))
     specs += _hist_plan(tier, seed)
     for n in (1, 2, 3):
         for order in fix.orders(n):
@@ -369,6 +375,9 @@ def run_random(spec, out):
 
 
 def replay_into(case, out):
+    if case.get('kind') == 'schedule':
+        from . import c09
+        return c09.replay_into(case, out)
     if case.get('kind') == 'history':
         return H.replay_into(case, out)
     kind = case['kind']
@@ -393,6 +402,9 @@ def replay_into(case, out):
 
 
 def run(spec, out):
+    if spec['kind'] == 'schedule':
+        from . import c09
+        return c09.run_schedule(spec, out)
     if spec['kind'] == 'history':
         return H.run_random(spec, out, HIST_ALPHA, _hist_nontrivial)
     dict(small=run_small, compose1=run_compose1, random=run_random)[
